@@ -9,7 +9,7 @@
 (* admissible coordinate system / backend / flavor, drives the real API    *)
 (* and compares what comes back with `exp`.                                *)
 (***************************************************************************)
-EXTENDS Eval, Lattice, Json
+EXTENDS Eval, Lattice, Json, FiniteSets
 
 VARIABLE c
 
@@ -115,4 +115,26 @@ Emit == PrintT("@@CASE " \o ToJson(c))
 
 \* every case has one of the four result shapes (TLC checks this on every state)
 WellFormed == c.exp[1] \in {"num", "vec", "bool", "undef", "partial"}
+
+\* C13 on the specification itself: wherever the expected value folds to an exact rational, the documented sign and
+\* range conventions hold for the definitions of Algebra.tla; and the three causal classes never overlap and never
+\* leave a vector unclassified (exactly one of the three holds; on a boundary that one is lightlike).
+IsRatR(e) == e[1] = "num" /\ IsQ(e[2])
+SignOf(e) == QSign(e[2])
+RangeConventions ==
+    /\ (c.op \in {"rho", "mag", "rho2", "mag2", "t2", "rawtau_t2", "rawtau_t", "abs", "Et2"} /\ c.op # "abs" /\ IsRatR(c.exp)) => SignOf(c.exp) >= 0
+    /\ (c.op \in {"costheta", "cottheta"} /\ IsRatR(c.exp) /\ c.a[3] # Zero) => SignOf(c.exp) = QSign(c.a[3])
+    /\ (c.op = "tau" /\ IsRatR(c.exp) /\ Tau2(c.a) # Zero) => (SignOf(c.exp) < 0) = (QSign(Tau2(c.a)) < 0)
+    /\ (c.op = "beta" /\ IsRatR(c.exp) /\ QSign(c.a[4]) > 0 /\ QSign(Tau2(c.a)) > 0) => (SignOf(c.exp) >= 0 /\ QLt(c.exp[2], One))
+    /\ (c.op = "gamma" /\ IsRatR(c.exp) /\ QSign(c.a[4]) > 0 /\ QSign(Tau2(c.a)) > 0) => ~QLt(c.exp[2], One)
+    /\ (c.op \in {"is_timelike", "is_spacelike", "is_lightlike"}) =>
+          LET k == c.p[1]
+              r == << IsTimelike(c.a, k), IsLightlike(c.a, k), IsSpacelike(c.a, k) >>
+              nT == Cardinality({ i \in 1..3 : r[i] \in {"T", "tieT"} })
+          IN  nT = 1 /\ (\A i \in 1..3 : r[i] \in {"T", "F", "tieT", "tieF"}) /\ (r[1] = "tieF" \/ r[3] = "tieF" => r[2] = "tieT")
+    /\ (c.op \in {"rawtau_is_timelike", "rawtau_is_spacelike", "rawtau_is_lightlike"}) =>
+          LET k == c.p[1]
+              r == << RawIsTimelike(c.a, k), RawIsLightlike(c.a, k), RawIsSpacelike(c.a, k) >>
+              nT == Cardinality({ i \in 1..3 : r[i] \in {"T", "tieT"} })
+          IN  nT = 1 /\ (\A i \in 1..3 : r[i] \in {"T", "F", "tieT", "tieF"}) /\ (r[1] = "tieF" \/ r[3] = "tieF" => r[2] = "tieT")
 =============================================================================
